@@ -61,10 +61,13 @@ def core_masks(nc):
             f = jj
         if 0 <= f < nyf:
             fy[f] = True
+    if not fy.any():
+        # no closed field lines at all (isolated X-point: every y column is a leg)
+        cx = np.zeros(nx, bool)
     return cx, fy
 
 
-def validate_file(nc, cls, orthogonal=None, has_pressure=None, has_wall=True):
+def validate_file(nc, cls, orthogonal=None, has_pressure=None, has_wall=True, check_folds=True):
     out = []
     missing = []
     for k in SCALARS_INT + SCALARS_FLOAT:
@@ -187,7 +190,12 @@ def validate_file(nc, cls, orthogonal=None, has_pressure=None, has_wall=True):
     if nfold:
         ii = np.argwhere((sgn != ref) | bow)
         wh = ii[:5].tolist()
-    out.append(rec("file.no_folded_cell", cls, area.size, nfold, 0, where=wh, note="min |area| %.3g" % float(np.abs(area).min())))
+    if check_folds:
+        out.append(rec("file.no_folded_cell", cls, area.size, nfold, 0, where=wh, note="min |area| %.3g" % float(np.abs(area).min())))
+    else:
+        # follow_perpendicular_recover=True is the documented opt-in to "an incorrect grid ... useful
+        # when adjusting settings": the geometry of such a grid is not judged, only counted
+        out.append(rec("informational: folded cells in a grid made with follow_perpendicular_recover (documented as incorrect)", cls + "|recover-opt-in", area.size, 0, 0, note="%d folded" % nfold))
     return out
 
 
@@ -205,10 +213,11 @@ def run(cap):
         orth = bool(y.get("orthogonal", True))
         has_p = "pressure" in nc
         has_wall = True
-    out = validate_file(nc, cls, orthogonal=orth, has_pressure=has_p, has_wall=has_wall)
+    recover = bool((cap.spec.get("opts") or {}).get("follow_perpendicular_recover"))
+    out = validate_file(nc, cls, orthogonal=orth, has_pressure=has_p, has_wall=has_wall, check_folds=not recover)
     # sanity of a file produced from a hostile / shipped input: points on their flux
     # surfaces (file-level, needs the live equilibrium)
-    if cap.mesh is not None and cap.spec.get("hostile"):
+    if cap.mesh is not None and cap.spec.get("hostile") and not recover:
         import numpy as np
 
         psi = cap.eq.psi
